@@ -1,3 +1,80 @@
+(** C06 -- directory integrity (sql/migrate/dir.go: NewHashFile, HashFile.Sum /
+    MarshalText / UnmarshalText, Validate; migrate.go writers).
+
+    Property: "After the sum file has been written for a directory, validation
+    succeeds as long as the set of migration files, their names, order and
+    bytes are unchanged, and fails with a checksum error after any change: a
+    file added anywhere, removed, renamed, reordered, or edited by even one
+    byte, or a sum file whose lines were edited.  Every Atlas operation that
+    writes to the directory leaves it valid."
+
+    Only statements, [exact], [Print Assumptions] and [Example]s live here.
+    [HS] stands for base64(sha256(.)).  The only thing assumed of it is its
+    *shape* ([hash_ok]: 44 bytes of the base64 alphabet); collision freeness
+    is NOT assumed: every detection theorem concludes "detected, or here are
+    two different byte strings, computed from the two directories, with the
+    same hash". *)
 From Coq Require Import List NArith Bool Arith.
-From Atlas Require Import Base.Bytes Dir.DirModel.
+From Atlas Require Import Base.Bytes Dir.DirModel Dir.DirProofs Dir.DirDetect Dir.DirToyHash.
 Import ListNotations.
+
+Section C06.
+Variable HS : bytes -> bytes.
+Hypothesis HS_shape : forall x, hash_ok (HS x).
+
+(** 1. An untouched directory validates against the sum file NewHashFile +
+    MarshalText wrote for it -- for every directory (any number of files, any
+    contents, sum-ignored files included) whose names survive the text format
+    of atlas.sum: [names_ok] = every name [n] has [TrimSpace(n) == n] and no
+    line feed (decidable).  ("h1:" inside a name is fine since fix 55b7d3e.) *)
+Theorem C06_untouched_validates :
+  forall d : list file,
+  names_ok d = true ->
+  validate HS d (Some (marshal HS (newhash HS d))) = VOk.
+Proof. exact (untouched_validates_lemma HS HS_shape). Qed.
+
+(** 2. Detection as a collision reduction.  If ANY directory [d'] validates
+    against the sum file written for [d], then the two directories have the
+    same [covered] list (per hash line: the file name, and the names of the
+    sum-ignored files since the previous line ++ name ++ content) -- or two
+    different hash inputs of the two directories collide.  [names_wf]: ".sql"
+    occurs in every name exactly once, as the suffix (decidable; true of
+    every name Atlas generates).
+    Not proved: the form without [names_wf d'] (it needs a third disjunct for
+    self-referential hashes, DESIGN section 4). *)
+Theorem C06_detect :
+  forall d d' : list file,
+  names_wf d = true -> names_wf d' = true ->
+  validate HS d' (Some (marshal HS (newhash HS d))) = VOk ->
+  covered d = covered d' \/ collision HS (hash_inputs HS d ++ hash_inputs HS d').
+Proof. exact (detect_lemma HS HS_shape). Qed.
+
+(** 3. No sum-ignored file on either side: only the directory itself
+    validates -- any other list of files (added anywhere, removed, renamed,
+    reordered, edited by one byte or more, any compound edit) is refused, or a
+    collision is exhibited. *)
+Theorem C06_detect_plain :
+  forall d d' : list file,
+  names_wf d = true -> names_wf d' = true -> no_ignored d = true -> no_ignored d' = true ->
+  validate HS d' (Some (marshal HS (newhash HS d))) = VOk ->
+  d' = d \/ collision HS (hash_inputs HS d ++ hash_inputs HS d').
+Proof. exact (detect_plain_lemma HS HS_shape). Qed.
+
+(** 3'. ... and the refusal is a *ChecksumError (not a panic, not another
+    error) when the sum file is the one Atlas wrote for a directory with
+    distinct [names_ok] names. *)
+Theorem C06_detect_plain_checksum_error :
+  forall d d' : list file,
+  names_ok d = true -> NoDup (map fst d) ->
+  names_wf d = true -> names_wf d' = true -> no_ignored d = true -> no_ignored d' = true ->
+  d' <> d ->
+  is_checksum_error (validate HS d' (Some (marshal HS (newhash HS d)))) \/
+  collision HS (hash_inputs HS d ++ hash_inputs HS d').
+Proof. exact (detect_plain_error HS HS_shape). Qed.
+
+End C06.
+
+Print Assumptions C06_untouched_validates.
+Print Assumptions C06_detect.
+Print Assumptions C06_detect_plain.
+Print Assumptions C06_detect_plain_checksum_error.
